@@ -90,3 +90,300 @@ Proof. split; [cbn; repeat constructor | split; [discriminate | reflexivity]]. Q
 Example C26_example_preamble :
   map_block_trial_ranges ex_repeat (Some ex_geom_pre) = Some [(0, 3); (2, 5)].
 Proof. reflexivity. Qed.
+
+(** * The scope statement about the documented semantics itself
+
+    [DocSem.doc_sem : program -> res docsem] (Design/DocSem.v, mirror of harness/docsem.py, which is
+    written from the documentation only) gives every constraint of the program the windows it
+    applies to.  The theorems below are about [doc_sem] (proofs: Design/DocSemScope.v,
+    Design/DocSemScopeLink.v); vocabulary (Design/DocSemScope.v):
+    - [scoped bd Tsrc W Sc (c, sc) k]: semantic constraint [k] comes from program constraint [c]
+      whose scope [sc] inside the block it was given to ([Tsrc] trials) has windows [base] and
+      trial-group scale [scale]; its kind is that of [c] with scale [Sc scale] ([src_kind]) and,
+      when its kind carries windows ([windowed]), its windows are [W base];
+    - [global_scope bd T c k]: [k] comes from [c], scale 1, single window [0, T);
+    - [rep_scope bd Tb Pb T c k]: [k] comes from [c], scale 1, windows [rep_window Tb Pb T j] for
+      [j < rep_count Tb Pb T];
+    - [marker ds]: the unsatisfiable constraint [doc_sem] adds for a crossing that must be complete
+      and cannot be. *)
+From Coq Require Import String.
+From SP Require Import Design.Sem Design.DocSem Design.DocSemScope Design.DocSemScopeLink Design.DocSemScopeExamples.
+Local Open Scope nat_scope.
+Local Open Scope list_scope.
+
+(** [scope_windows] on a repetition scope, closed form: repetition [j] starts at [off + j*(Tb - Pb)],
+    for every [j] with [off + j*(Tb - Pb) < T - Pb]; in it the constraint has the windows [base] it has
+    inside the block, moved by the start and cut at [T] (a window with nothing left is dropped) *)
+Theorem C26_doc_rep_windows_closed :
+  forall inner Tb Pb off T base scale,
+    scope_windows inner Tb = Ok (base, scale) -> Pb < Tb ->
+    scope_windows (ScRep inner Tb Pb off) T
+    = Ok (flat_map (fun j => flat_map (fun ab : nat * nat =>
+                                         let lo := off + j * (Tb - Pb) + fst ab in
+                                         let hi := Nat.min (off + j * (Tb - Pb) + snd ab) T in
+                                         if lo <? hi then [(lo, hi)] else []) base)
+                   (seq 0 (ceil_div (T - Pb - off) (Tb - Pb))), scale).
+Proof. exact scope_windows_rep_closed. Qed.
+Print Assumptions C26_doc_rep_windows_closed.
+
+(** a constraint given directly to the repeated block (scope: the whole block): window [j] is
+    [j*step, min(j*step + Tb, T)), step = Tb - Pb, for exactly the [j] with [j*step < T - Pb]
+    (the same closed form as [C26_ranges_spec]) *)
+Theorem C26_doc_rep_windows_whole_block :
+  forall Tb Pb T, Pb < Tb ->
+    scope_windows (ScRep ScNone Tb Pb 0) T
+    = Ok (map (fun j => (j * (Tb - Pb), Nat.min (j * (Tb - Pb) + Tb) T)) (seq 0 (rep_count Tb Pb T)), 1)
+    /\ forall j, j < rep_count Tb Pb T <-> j * (Tb - Pb) < T - Pb.
+Proof. exact scope_windows_rep_none_spec. Qed.
+Print Assumptions C26_doc_rep_windows_whole_block.
+
+(** without preamble: the chunks [j*Tb, min((j+1)*Tb, T)) for [j*Tb < T] ... *)
+Theorem C26_doc_rep_windows_no_preamble :
+  forall Tb T, 0 < Tb ->
+    scope_windows (ScRep ScNone Tb 0 0) T
+    = Ok (map (fun j => (j * Tb, Nat.min ((j + 1) * Tb) T)) (seq 0 (ceil_div T Tb)), 1)
+    /\ forall j, j < ceil_div T Tb <-> j * Tb < T.
+Proof. exact scope_windows_chunks_spec. Qed.
+Print Assumptions C26_doc_rep_windows_no_preamble.
+
+(** ... which partition [0, T): trial [t] lies in chunk number [t / Tb] and in no other; every chunk is
+    non-empty, inside the sequence, of [Tb] trials except a possibly shorter last one *)
+Theorem C26_doc_chunks_partition :
+  forall Tb T j t, 0 < Tb ->
+    (j * Tb <= t < Nat.min ((j + 1) * Tb) T <-> t < T /\ t / Tb = j).
+Proof. exact chunk_windows_partition. Qed.
+Print Assumptions C26_doc_chunks_partition.
+
+Theorem C26_doc_chunks_shape :
+  forall Tb T j, 0 < Tb -> j < ceil_div T Tb ->
+    j * Tb < Nat.min ((j + 1) * Tb) T /\ Nat.min ((j + 1) * Tb) T <= T /\
+    Nat.min ((j + 1) * Tb) T - j * Tb <= Tb /\
+    (S j < ceil_div T Tb -> Nat.min ((j + 1) * Tb) T - j * Tb = Tb).
+Proof. exact chunk_windows_shape. Qed.
+Print Assumptions C26_doc_chunks_shape.
+
+(** Repeat(b, cs): the semantic constraints are those that come from the constraints of [b], then those
+    that come from [cs], then the marker.  A constraint of [b] keeps its kind and gets, in every
+    repetition of [b] ([b_T inner] trials, [b_P inner] of them preamble), the windows it has inside [b];
+    a constraint of [cs] gets the single window [0, T). *)
+Theorem C26_doc_repeat_scope :
+  forall p b cs inner ds,
+    doc_block p b = Ok inner -> doc_sem_block p (PRepeat b cs) = Ok ds ->
+    exists kss_b kss_c,
+      s_constraints (ds_sem ds) = List.concat kss_b ++ List.concat kss_c ++ marker ds /\
+      Forall2 (fun csc ks => forall k : dconstraint, In k ks ->
+                 b_P inner < b_T inner /\
+                 scoped (ds_block ds) (b_T inner)
+                        (fun base => rep_closed base (b_T inner - b_P inner) (ds_T ds) (b_P inner) 0) (fun s => s) csc k)
+              (b_constraints inner) kss_b /\
+      Forall2 (fun c ks => forall k : dconstraint, In k ks -> global_scope (ds_block ds) (ds_T ds) c k)
+              (filter (fun c => negb (is_min_trials c)) cs) kss_c.
+Proof. exact repeat_scope. Qed.
+Print Assumptions C26_doc_repeat_scope.
+
+(** Merge([b], cs) in any mode (REPEAT in particular) and with any alignment the constructor accepts: the same *)
+Theorem C26_doc_merge1_scope :
+  forall p b cs mode al inner ds,
+    doc_block p b = Ok inner -> doc_sem_block p (PMerge [b] cs mode al) = Ok ds ->
+    exists kss_b kss_c,
+      s_constraints (ds_sem ds) = List.concat kss_b ++ List.concat kss_c ++ marker ds /\
+      Forall2 (fun csc ks => forall k : dconstraint, In k ks ->
+                 b_P inner < b_T inner /\
+                 scoped (ds_block ds) (b_T inner)
+                        (fun base => rep_closed base (b_T inner - b_P inner) (ds_T ds) (b_P inner) 0) (fun s => s) csc k)
+              (b_constraints inner) kss_b /\
+      Forall2 (fun c ks => forall k : dconstraint, In k ks -> global_scope (ds_block ds) (ds_T ds) c k)
+              (filter (fun c => negb (is_min_trials c)) cs) kss_c.
+Proof. exact merge1_scope. Qed.
+Print Assumptions C26_doc_merge1_scope.
+
+(** [b] a CrossBlock / MultiCrossBlock: every constraint of [b] has exactly the repetition windows
+    [(j*step, min(j*step + Tb, T))], step = Tb - Pb, j*step < T - Pb *)
+Theorem C26_doc_repeat_cross_scope :
+  forall p b cs inner ds,
+    is_cross b -> doc_block p b = Ok inner -> doc_sem_block p (PRepeat b cs) = Ok ds ->
+    exists kss_b kss_c,
+      s_constraints (ds_sem ds) = List.concat kss_b ++ List.concat kss_c ++ marker ds /\
+      Forall2 (fun csc ks => forall k : dconstraint, In k ks ->
+                 b_P inner < b_T inner /\
+                 src_kind (ds_block ds) (fst csc) 1 (k_kind k) /\
+                 k_windows k = if windowed (k_kind k)
+                               then map (rep_window (b_T inner) (b_P inner) (ds_T ds))
+                                        (seq 0 (rep_count (b_T inner) (b_P inner) (ds_T ds)))
+                               else [])
+              (b_constraints inner) kss_b /\
+      Forall2 (fun c ks => forall k : dconstraint, In k ks ->
+                 src_kind (ds_block ds) c 1 (k_kind k) /\
+                 k_windows k = if windowed (k_kind k) then [(0, ds_T ds)] else [])
+              (filter (fun c => negb (is_min_trials c)) cs) kss_c.
+Proof. exact repeat_cross_scope. Qed.
+Print Assumptions C26_doc_repeat_cross_scope.
+
+Theorem C26_doc_merge1_cross_scope :
+  forall p b cs mode al inner ds,
+    is_cross b -> doc_block p b = Ok inner -> doc_sem_block p (PMerge [b] cs mode al) = Ok ds ->
+    exists kss_b kss_c,
+      s_constraints (ds_sem ds) = List.concat kss_b ++ List.concat kss_c ++ marker ds /\
+      Forall2 (fun csc ks => forall k : dconstraint, In k ks ->
+                 b_P inner < b_T inner /\ rep_scope (ds_block ds) (b_T inner) (b_P inner) (ds_T ds) (fst csc) k)
+              (b_constraints inner) kss_b /\
+      Forall2 (fun c ks => forall k : dconstraint, In k ks -> global_scope (ds_block ds) (ds_T ds) c k)
+              (filter (fun c => negb (is_min_trials c)) cs) kss_c.
+Proof. exact merge1_cross_scope. Qed.
+Print Assumptions C26_doc_merge1_cross_scope.
+
+(** Nest(outer, inner, cs), n = trial count of [inner] (Nest refuses preambles):
+    - a constraint of [outer] has its windows inside [outer] multiplied by n, repeated every
+      [b_T outer * n] trials, and its scale multiplied by n (ExactlyK k counts k*n trials);
+    - a constraint of [inner] has its windows inside [inner] repeated every n trials;
+    - a constraint of [cs] has the single window [0, T). *)
+Theorem C26_doc_nest_scope :
+  forall p o i cs al outer inner ds,
+    doc_block p o = Ok outer -> doc_block p i = Ok inner -> doc_sem_block p (PNest o i cs al) = Ok ds ->
+    let n := b_T inner in
+    exists kss_o kss_i kss_c,
+      s_constraints (ds_sem ds) = List.concat kss_o ++ List.concat kss_i ++ List.concat kss_c ++ marker ds /\
+      Forall2 (fun csc ks => forall k : dconstraint, In k ks ->
+                 scoped (ds_block ds) (b_T outer)
+                        (fun base => rep_closed (scale_windows n base) (b_T outer * n) (ds_T ds) 0 0) (fun s => s * n) csc k)
+              (b_constraints outer) kss_o /\
+      Forall2 (fun csc ks => forall k : dconstraint, In k ks ->
+                 scoped (ds_block ds) n (fun base => rep_closed base n (ds_T ds) 0 0) (fun s => s) csc k)
+              (b_constraints inner) kss_i /\
+      Forall2 (fun c ks => forall k : dconstraint, In k ks -> global_scope (ds_block ds) (ds_T ds) c k)
+              (filter (fun c => negb (is_min_trials c)) cs) kss_c.
+Proof. exact nest_scope. Qed.
+Print Assumptions C26_doc_nest_scope.
+
+(** both blocks CrossBlocks / MultiCrossBlocks: one window per group of n trials for the inner
+    constraints; the outer constraints are scaled by n and keep one window per [b_T outer * n] trials *)
+Theorem C26_doc_nest_cross_scope :
+  forall p o i cs al outer inner ds,
+    is_cross o -> is_cross i ->
+    doc_block p o = Ok outer -> doc_block p i = Ok inner -> doc_sem_block p (PNest o i cs al) = Ok ds ->
+    let n := b_T inner in
+    exists kss_o kss_i kss_c,
+      s_constraints (ds_sem ds) = List.concat kss_o ++ List.concat kss_i ++ List.concat kss_c ++ marker ds /\
+      Forall2 (fun csc ks => forall k : dconstraint, In k ks ->
+                 src_kind (ds_block ds) (fst csc) n (k_kind k) /\
+                 k_windows k = if windowed (k_kind k) then chunk_windows (b_T outer * n) (ds_T ds) else [])
+              (b_constraints outer) kss_o /\
+      Forall2 (fun csc ks => forall k : dconstraint, In k ks ->
+                 src_kind (ds_block ds) (fst csc) 1 (k_kind k) /\
+                 k_windows k = if windowed (k_kind k) then chunk_windows n (ds_T ds) else [])
+              (b_constraints inner) kss_i /\
+      Forall2 (fun c ks => forall k : dconstraint, In k ks ->
+                 src_kind (ds_block ds) c 1 (k_kind k) /\
+                 k_windows k = if windowed (k_kind k) then [(0, ds_T ds)] else [])
+              (filter (fun c => negb (is_min_trials c)) cs) kss_c.
+Proof. exact nest_cross_scope. Qed.
+Print Assumptions C26_doc_nest_cross_scope.
+
+(** "applies separately within each repetition": a run-length or count constraint
+    (AtMostKInARow, AtLeastKInARow, ExactlyKInARow, ExactlyK) holds on the sequence iff, for each of its
+    windows, it holds on the trials of that window taken alone, as a sequence with the single window [0, Tb) *)
+Theorem C26_doc_per_window :
+  forall (S S' : sem) (s : tseq) (c : dconstraint) (Tb : nat),
+    row_kind (k_kind c) = true ->
+    (forall w, In w (k_windows c) -> snd w - fst w <= Tb) ->
+    constraint_ok S s c
+    = forallb (fun w => constraint_ok S' (map (fun row => firstn (snd w - fst w) (skipn (fst w) row)) s)
+                                      (set_windows c [(0, Tb)])) (k_windows c).
+Proof. exact constraint_ok_per_window. Qed.
+Print Assumptions C26_doc_per_window.
+
+Theorem C26_doc_per_repetition :
+  forall (S S' : sem) (s : tseq) (c : dconstraint) (Tb Pb T : nat),
+    row_kind (k_kind c) = true ->
+    k_windows c = map (rep_window Tb Pb T) (seq 0 (rep_count Tb Pb T)) ->
+    (constraint_ok S s c = true <->
+     forall j, j < rep_count Tb Pb T ->
+       constraint_ok S' (slice_seq s (j * (Tb - Pb)) (Nat.min (j * (Tb - Pb) + Tb) T)) (set_windows c [(0, Tb)]) = true).
+Proof. exact constraint_ok_per_repetition. Qed.
+Print Assumptions C26_doc_per_repetition.
+
+(** without preamble: iff it holds on every chunk of [Tb] consecutive trials taken alone *)
+Theorem C26_doc_per_chunk :
+  forall (S S' : sem) (s : tseq) (c : dconstraint) (Tb T : nat),
+    row_kind (k_kind c) = true ->
+    k_windows c = map (fun j => (j * Tb, Nat.min ((j + 1) * Tb) T)) (seq 0 (ceil_div T Tb)) ->
+    (constraint_ok S s c = true <->
+     forall j, j < ceil_div T Tb ->
+       constraint_ok S' (map (fun row => firstn (Nat.min ((j + 1) * Tb) T - j * Tb) (skipn (j * Tb) row)) s)
+                     (set_windows c [(0, Tb)]) = true).
+Proof. exact constraint_ok_per_chunk. Qed.
+Print Assumptions C26_doc_per_chunk.
+
+(** a combinator constraint (single window [0, T)) reads the whole row of its factor *)
+Theorem C26_doc_global :
+  forall (S : sem) (s : tseq) (c : dconstraint) (T : nat),
+    row_kind (k_kind c) = true -> k_windows c = [(0, T)] -> List.length (nth (k_factor c) s []) <= T ->
+    constraint_ok S s c = constraint_ok S (slice_seq s 0 T) c /\
+    slice (nth (k_factor c) s []) 0 T = nth (k_factor c) s [].
+Proof. exact constraint_ok_global. Qed.
+Print Assumptions C26_doc_global.
+
+(** Documentation side = code side: under the hypotheses of [C26_ranges_spec], the windows [doc_sem]
+    gives a constraint of a repeated block are the ranges [map_block_trial_ranges] computes for that
+    block's geometry; and for a constraint of the outermost combinator both are the whole sequence. *)
+Theorem C26_doc_scope_eq_code_ranges :
+  forall (fb : flat) (g : geometry),
+    g_preamble g < g_trials g ->
+    fl_alignment fb <> PostPreamble ->
+    exists ws,
+      scope_windows (ScRep ScNone (g_trials g) (g_preamble g) 0) (fl_trials fb) = Ok (ws, 1) /\
+      map_block_trial_ranges fb (Some g) = Some ws /\
+      ws = map (rep_window (g_trials g) (g_preamble g) (fl_trials fb))
+               (seq 0 (rep_count (g_trials g) (g_preamble g) (fl_trials fb))).
+Proof. exact doc_scope_eq_code_ranges. Qed.
+Print Assumptions C26_doc_scope_eq_code_ranges.
+
+Theorem C26_doc_scope_eq_code_ranges_none :
+  forall fb : flat, 0 < fl_trials fb ->
+    scope_windows ScNone (fl_trials fb) = Ok ([(0, fl_trials fb)], 1) /\
+    map_block_trial_ranges fb None = Some [(0, fl_trials fb)].
+Proof. exact doc_scope_eq_code_ranges_none. Qed.
+Print Assumptions C26_doc_scope_eq_code_ranges_none.
+
+(** Examples (programs: Design/DocSemScopeExamples.v).
+    Repeat(CrossBlock([f], [f], [AtMostKInARow(1, (f, "a"))]), [MinimumTrials(5), AtMostKInARow(2, (f, "b"))]):
+    the hypotheses of [C26_doc_repeat_cross_scope] hold (2-trial block without preamble, 5-trial sequence);
+    2-trial repetitions, the last one partial; the block's constraint has the windows of
+    [C26_example_partial_last_repetition], the Repeat's constraint the whole sequence. *)
+Example C26_doc_example_repeat :
+  is_cross exd_cross /\ sizes_of exd_repeat exd_cross = Some (2, 0, 5) /\
+  sem_constraints_of exd_repeat = [(KAtMost 1, 0, [(0, 2); (2, 4); (4, 5)]); (KAtMost 2, 1, [(0, 5)])].
+Proof. split; [exact I|]. vm_compute. split; reflexivity. Qed.
+
+(** the same with Merge([b], ..., REPEAT) *)
+Example C26_doc_example_merge :
+  sizes_of exd_merge exd_cross = Some (2, 0, 5) /\
+  sem_constraints_of exd_merge = [(KAtMost 1, 0, [(0, 2); (2, 4); (4, 5)]); (KAtMost 2, 1, [(0, 5)])].
+Proof. vm_compute. split; reflexivity. Qed.
+
+(** a block with one preamble trial (3 trials; t = Transition on f crossed): repetitions of 2 trials,
+    each window includes the preamble trial before it - the windows of [C26_example_preamble] *)
+Example C26_doc_example_preamble :
+  sizes_of exd_pre exd_pre_cross = Some (3, 1, 5) /\
+  sem_constraints_of exd_pre = [(KAtMost 1, 0, [(0, 3); (2, 5)])].
+Proof. vm_compute. split; reflexivity. Qed.
+
+(** Nest(CrossBlock([f], [f], [ExactlyK(1, (f, "a"))]), CrossBlock([g], [g], [AtMostKInARow(1, (g, "x"))]),
+         [AtMostKInARow(2, (g, "y"))]):
+    6 trials; the outer count is scaled by 3 over the whole outer block, the inner constraint applies
+    within each group of 3 trials, the Nest's own constraint across the 6 trials. *)
+Example C26_doc_example_nest :
+  is_cross exd_outer /\ is_cross exd_inner /\
+  sizes_of exd_nest exd_outer = Some (2, 0, 6) /\ sizes_of exd_nest exd_inner = Some (3, 0, 6) /\
+  sem_constraints_of exd_nest
+  = [(KExactlyK 3, 0, [(0, 6)]); (KAtMost 1, 0, [(0, 3); (3, 6)]); (KAtMost 2, 1, [(0, 6)])].
+Proof. split; [exact I|]. split; [exact I|]. vm_compute. repeat split; reflexivity. Qed.
+
+(** ... and the semantic reading on the Repeat example: "a a" across the boundary of two repetitions is
+    accepted by the block's constraint, inside one repetition it is not *)
+Example C26_doc_example_per_repetition :
+  let c := {| k_kind := KAtMost 1; k_factor := 0; k_level := 0; k_windows := [(0, 2); (2, 4); (4, 5)] |} in
+  let S := {| s_trials := 5; s_factors := []; s_crossings := []; s_constraints := [] |} in
+  constraint_ok S [[Some 1; Some 0; Some 0; Some 1; Some 0]] c = true /\
+  constraint_ok S [[Some 0; Some 0; Some 1; Some 1; Some 0]] c = false.
+Proof. vm_compute. split; reflexivity. Qed.
